@@ -185,3 +185,61 @@ def handler_site_filter(model, table, units, extra_names=()):
                 prefixes.add(f"{c[0]}:{c[1]}.")
     pf = tuple(sorted(prefixes))
     return (lambda s: s.startswith(pf)), sorted(seen)
+
+
+#: stores into a memo table under a key other than the one looked up, confirmed by reading: (unit, function, key text) -> reason
+MEMO_EXTRA_KEYS = {
+    ("passlib.context", "_CryptConfig.get_record", "(None, category)"): "inside `if not scheme:` -- the looked-up key with its falsy scheme slot spelt None",
+    ("passlib.crypto.digest", "lookup_hash", "const"): "the constructor object is a second, documented way of naming the same digest",
+}
+
+
+def rule_memo_keys(model, rep, R, unit_prefixes, minimum=1):
+    """look-up-then-fill memo tables: a function that opens with `try: return TABLE[K] / except KeyError: pass` and later stores
+    `TABLE[K2] = value` must store under the key it looked up (K2 == K) -- otherwise the answer computed for one key is served for another"""
+    n = 0
+    for un, unit in model.units.items():
+        if not un.startswith(tuple(unit_prefixes)):
+            continue
+        for q, fn in unit.functions():
+            for t in fn.body:
+                if not (isinstance(t, ast.Try) and len(t.body) == 1 and isinstance(t.body[0], ast.Return) and isinstance(t.body[0].value, ast.Subscript)
+                        and t.handlers and all(h.type is not None and "KeyError" in ast.unparse(h.type) and len(h.body) == 1 and isinstance(h.body[0], ast.Pass) for h in t.handlers)):
+                    continue
+                table, key = ast.unparse(t.body[0].value.value), ast.unparse(t.body[0].value.slice)
+                aliases = {table} | {tt.id for a in walk_no_nested(fn) if isinstance(a, ast.Assign) and ast.unparse(a.value) == table for tt in a.targets if isinstance(tt, ast.Name)}
+                stores = [s for s in walk_no_nested(fn) if isinstance(s, ast.Subscript) and isinstance(s.ctx, ast.Store) and ast.unparse(s.value) in aliases]
+                if not stores:
+                    continue
+                n += 1
+                s_ = f"{un}:{q}"
+                keys = [ast.unparse(s.slice) for s in stores]
+                bad = [k for k in keys if k != key and (un, q, k) not in MEMO_EXTRA_KEYS]
+                rep.check(key in keys and not bad, R, s_, f"looked up {table}[{key}]; stored under {keys}",
+                          "the memo table is filled under the key it is looked up by",
+                          witness="the list built for one category is cached as the default category's: after one admin-category call every category-less call is judged by the admin policy")
+    if n < minimum:
+        rep.undecided(R, "<instance-count>", f"only {n} look-up-then-fill memo functions found, expected at least {minimum}")
+
+
+def rule_as_bool(model, rep, R):
+    """as_bool() answers its `none` default only for "no value" (None, or a text in _none_set); every other non-text value -- the number 0
+    included -- is a value and is converted with bool()"""
+    U = "passlib.utils"
+    fn = model.func(U, "as_bool")
+    unit = model.unit(U)
+    s = f"{U}:as_bool"
+    bad = []
+    n = 0
+    for r in walk_no_nested(fn):
+        if isinstance(r, ast.Return) and isinstance(r.value, ast.Name) and r.value.id == "none":
+            n += 1
+            guard = unit.enclosing(r, ast.If)
+            t = ast.unparse(guard.test) if guard is not None else "<unconditional>"
+            if t not in ("value is None", "clean in _none_set"):
+                bad.append(t)
+    last = fn.body[-1]
+    tail = ast.unparse(last)
+    rep.check(n >= 1 and not bad and tail == "return bool(value)", R, s, f"`return none` under {bad or ['value is None / clean in _none_set']}; tail `{tail}`",
+              "the `none` default is returned for None (and the documented 'none' words) only; numbers are converted with bool(value)",
+              witness="des_crypt.using(truncate_error=True).using(truncate_error=0) keeps truncate_error=True: the number 0 is read as 'option not given'")
